@@ -53,12 +53,11 @@ func rep(class string, k int) core.Dec {
 	case "one":
 		d.Coeff, d.Exp = []string{"1", "10", "1000"}[k%3], int32(-[]int{0, 1, 3}[k%3])
 	case "odd":
-		d.Coeff = []string{"3", "7", "21", "1", "99999"}[k%5]
-		if d.Coeff == "1" {
-			d.Coeff = "5"
-		}
+		// small odd integers and odd integers beyond the 32-, 63-, 64- and 128-bit widths
+		d.Coeff = []string{"3", "7", "21", "5", "99999", "4294967297", "9223372036854775807", "9223372036854775809", "18446744073709551617",
+			"123456789012345678901", "340282366920938463463374607431768211457"}[k%11]
 	case "even":
-		d.Coeff = []string{"2", "4", "10", "128", "30"}[k%5]
+		d.Coeff = []string{"2", "4", "10", "128", "30", "4294967296", "9223372036854775808", "18446744073709551616", "123456789012345678902"}[k%9]
 	case "evenE": // even integer written with a positive exponent and an odd coefficient
 		d.Coeff, d.Exp = []string{"1", "3", "7"}[k%3], int32(1+k%3)
 	case "oddE": // odd integer written with trailing fraction zeros
@@ -353,6 +352,9 @@ func genCase(t *rapid.T) Case {
 		c.Op = unary[gen.Pick(t, len(unary), "op")]
 	}
 	c.Ctx = gen.Context(t, 30)
+	if !(c.Op == "cbrt" || c.Op == "ln" || c.Op == "log10" || c.Op == "exp" || c.Op == "pow") && gen.Pick(t, 4, "bigp") == 1 {
+		c.Ctx = gen.Context(t, 400)
+	}
 	if gen.Pick(t, 3, "trap") == 0 {
 		c.Ctx.Traps = uint32(apd.InvalidOperation)
 	}
